@@ -23,6 +23,7 @@ import (
 	"gitlab.com/aquachain/aquachain/aquadb"
 	"gitlab.com/aquachain/aquachain/common"
 	"gitlab.com/aquachain/aquachain/common/log"
+	"gitlab.com/aquachain/aquachain/common/verifhook"
 )
 
 // secureKeyPrefix is the database key prefix used to store trie node preimages.
@@ -252,18 +253,32 @@ func (db *Database) Commit(node common.Hash, report bool) error {
 	batch := db.diskdb.NewBatch()
 
 	// Move all of the accumulated preimages into a write batch
-	for hash, preimage := range db.preimages {
+	putPreimage := func(hash common.Hash, preimage []byte) error {
 		if err := batch.Put(db.secureKey(hash[:]), preimage); err != nil {
 			log.Error("Failed to commit preimage from trie database", "err", err)
-			db.lock.RUnlock()
 			return err
 		}
 		if batch.ValueSize() > aquadb.IdealBatchSize {
 			if err := batch.Write(); err != nil {
-				db.lock.RUnlock()
 				return err
 			}
 			batch.Reset()
+		}
+		return nil
+	}
+	if keys := verifhook.OrderedKeys("trie.commit.preimages", db.preimages); keys != nil {
+		for _, hash := range keys {
+			if err := putPreimage(hash, db.preimages[hash]); err != nil {
+				db.lock.RUnlock()
+				return err
+			}
+		}
+	} else {
+		for hash, preimage := range db.preimages {
+			if err := putPreimage(hash, preimage); err != nil {
+				db.lock.RUnlock()
+				return err
+			}
 		}
 	}
 	// Move the trie itself into the batch, flushing if enough data is accumulated
@@ -310,9 +325,17 @@ func (db *Database) commit(hash common.Hash, batch aquadb.Batch) error {
 	if !ok {
 		return nil
 	}
-	for child := range node.children {
-		if err := db.commit(child, batch); err != nil {
-			return err
+	if keys := verifhook.OrderedKeys("trie.commit.children", node.children); keys != nil {
+		for _, child := range keys {
+			if err := db.commit(child, batch); err != nil {
+				return err
+			}
+		}
+	} else {
+		for child := range node.children {
+			if err := db.commit(child, batch); err != nil {
+				return err
+			}
 		}
 	}
 	if err := batch.Put(hash[:], node.blob); err != nil {
